@@ -349,6 +349,10 @@ class Gen:
         if ch < 0.88:
             if r.random() < 0.5:
                 self.feat.add("plain-function-keywords")
+                if r.random() < 0.25:
+                    # ... its first argument spread from a one-element display
+                    self.feat.add("plain-function-starred-argument")
+                    return ast.Call(func=N("fadd"), args=[ast.Starred(value=ast.Tuple(elts=[self.num(env, d - 1)], ctx=ast.Load()), ctx=ast.Load())], keywords=[ast.keyword(arg=r.choice(["b", "k"]), value=self.num(env, d - 1))])
                 return ast.Call(func=N("fadd"), args=[self.num(env, d - 1)], keywords=[ast.keyword(arg=r.choice(["b", "k"]), value=self.num(env, d - 1))])
             return ast.UnaryOp(op=ast.USub(), operand=self.num(env, d - 1))
         if d > 1:  # pack then project immediately
